@@ -1,8 +1,10 @@
 package main
 
 import (
+	"bytes"
 	"fmt"
 	"go/ast"
+	"go/printer"
 	"go/token"
 	"strconv"
 	"strings"
@@ -14,6 +16,10 @@ import (
 //     (this order IS the source priority of Bind),
 //   - the (reflect kind → text decoder, bitSize) table of the switch in SelectTextDecoder,
 //   - the case labels of the getter-assignment switch in getBaseTypeTextDecoder / getSliceFieldDecoder.
+//   - the entry points of defaultBinder and its decoder caches (binding/default.go): which cache `tagCache`
+//     selects per tag, which helper and tag each exported Bind* method passes on, and inside bindTag /
+//     bindTagWithValidate where the cache comes from, which expression is `.Load`ed from and `.Store`d into,
+//     which tag reaches GetReqDecoder and under which guard preBindBody runs.
 //
 // Output: Hertz/Gen/BindTags.lean.
 func genC15() {
@@ -280,6 +286,209 @@ func genC15() {
 	emitG("baseGetters", baseGetters)
 	b.WriteString("/-- getter switch of `getSliceFieldDecoder` -/\n")
 	emitG("sliceGetters", sliceGetters)
+	genC15Entry(&b, strList)
 	b.WriteString("end Hertz.Gen.Bind\n")
 	write("BindTags.lean", b.String())
+}
+
+// genC15Entry: entry points and decoder caches of binding/default.go.
+func genC15Entry(b *strings.Builder, strList func([]string) string) {
+	fset, f := parseFile("pkg/app/server/binding/default.go")
+	consts := constStrings(f)
+	show := func(n ast.Node) string {
+		var buf bytes.Buffer
+		if err := printer.Fprint(&buf, fset, n); err != nil {
+			die("default.go: cannot print expression")
+		}
+		return strings.Join(strings.Fields(buf.String()), " ")
+	}
+	method := func(name string) *ast.FuncDecl {
+		for _, d := range f.Decls {
+			fd, ok := d.(*ast.FuncDecl)
+			if !ok || fd.Name.Name != name || fd.Recv == nil || len(fd.Recv.List) != 1 {
+				continue
+			}
+			if se, ok := fd.Recv.List[0].Type.(*ast.StarExpr); ok {
+				if id, ok := se.X.(*ast.Ident); ok && id.Name == "defaultBinder" {
+					return fd
+				}
+			}
+		}
+		die("default.go: method (*defaultBinder).%s not found", name)
+		return nil
+	}
+	tagValue := func(e ast.Expr, where string) string {
+		switch x := e.(type) {
+		case *ast.Ident:
+			if v, ok := consts[x.Name]; ok {
+				return v
+			}
+		case *ast.BasicLit:
+			if v, err := strconv.Unquote(x.Value); err == nil {
+				return v
+			}
+		}
+		die("default.go: %s: tag is neither a string constant nor a literal", where)
+		return ""
+	}
+
+	// tagCache: switch tag { case queryTag: return &b.queryDecoderCache … default: return &b.decoderCache }
+	type crow struct{ tag, field string }
+	var crows []crow
+	tc := method("tagCache")
+	nSwitch := 0
+	ast.Inspect(tc, func(n ast.Node) bool {
+		sw, ok := n.(*ast.SwitchStmt)
+		if !ok {
+			return true
+		}
+		nSwitch++
+		for _, st := range sw.Body.List {
+			cc := st.(*ast.CaseClause)
+			if len(cc.Body) != 1 {
+				die("default.go: tagCache case with %d statements", len(cc.Body))
+			}
+			rs, ok := cc.Body[0].(*ast.ReturnStmt)
+			if !ok || len(rs.Results) != 1 {
+				die("default.go: tagCache case is not a single return")
+			}
+			ue, ok := rs.Results[0].(*ast.UnaryExpr)
+			if !ok || ue.Op != token.AND {
+				die("default.go: tagCache case does not return &b.field")
+			}
+			se, ok := ue.X.(*ast.SelectorExpr)
+			if !ok {
+				die("default.go: tagCache case does not return &b.field")
+			}
+			if cc.List == nil {
+				crows = append(crows, crow{"*", se.Sel.Name})
+			}
+			for _, e := range cc.List {
+				crows = append(crows, crow{tagValue(e, "tagCache"), se.Sel.Name})
+			}
+		}
+		return false
+	})
+	if nSwitch != 1 || len(tc.Body.List) != 1 {
+		die("default.go: tagCache is not a single switch")
+	}
+
+	// exported entry points: a single `return b.<helper>(…, <tag>)`
+	type erow struct{ name, helper, tag string }
+	var erows []erow
+	for _, name := range []string{"Bind", "BindAndValidate", "BindPath", "BindForm", "BindQuery", "BindHeader"} {
+		fd := method(name)
+		if len(fd.Body.List) != 1 {
+			die("default.go: %s is not a single return", name)
+		}
+		rs, ok := fd.Body.List[0].(*ast.ReturnStmt)
+		if !ok || len(rs.Results) != 1 {
+			die("default.go: %s is not a single return", name)
+		}
+		ce, ok := rs.Results[0].(*ast.CallExpr)
+		if !ok || len(ce.Args) == 0 {
+			die("default.go: %s does not return a call", name)
+		}
+		se, ok := ce.Fun.(*ast.SelectorExpr)
+		if !ok {
+			die("default.go: %s does not call a method", name)
+		}
+		erows = append(erows, erow{name, se.Sel.Name, tagValue(ce.Args[len(ce.Args)-1], name)})
+	}
+
+	// bindTag / bindTagWithValidate: cache discipline
+	type urow struct {
+		fn, cacheInit, byTag, bodyGuard string
+		loads, stores                  []string
+	}
+	var urows []urow
+	for _, name := range []string{"bindTag", "bindTagWithValidate"} {
+		fd := method(name)
+		u := urow{fn: name, bodyGuard: "-"}
+		var guards []string
+		var walk func(n ast.Node)
+		walk = func(n ast.Node) {
+			ast.Inspect(n, func(n ast.Node) bool {
+				switch x := n.(type) {
+				case *ast.IfStmt:
+					if x.Init != nil {
+						walk(x.Init)
+					}
+					walk(x.Cond)
+					guards = append(guards, show(x.Cond))
+					walk(x.Body)
+					guards = guards[:len(guards)-1]
+					if x.Else != nil {
+						guards = append(guards, "!("+show(x.Cond)+")")
+						walk(x.Else)
+						guards = guards[:len(guards)-1]
+					}
+					return false
+				case *ast.AssignStmt:
+					if len(x.Lhs) == 1 && len(x.Rhs) == 1 {
+						if id, ok := x.Lhs[0].(*ast.Ident); ok && id.Name == "cache" {
+							if u.cacheInit != "" {
+								die("default.go: %s assigns `cache` twice", name)
+							}
+							u.cacheInit = show(x.Rhs[0])
+						}
+					}
+				case *ast.CallExpr:
+					se, ok := x.Fun.(*ast.SelectorExpr)
+					if !ok {
+						return true
+					}
+					switch se.Sel.Name {
+					case "Load":
+						u.loads = append(u.loads, show(se.X))
+					case "Store", "LoadOrStore", "Swap", "CompareAndSwap", "Delete", "LoadAndDelete", "Range":
+						u.stores = append(u.stores, se.Sel.Name+":"+show(se.X))
+					case "GetReqDecoder":
+						if len(x.Args) != 3 || u.byTag != "" {
+							die("default.go: %s: unexpected GetReqDecoder call", name)
+						}
+						u.byTag = show(x.Args[1])
+					case "preBindBody":
+						if u.bodyGuard != "-" {
+							die("default.go: %s calls preBindBody twice", name)
+						}
+						u.bodyGuard = strings.Join(guards, " && ")
+					}
+				}
+				return true
+			})
+		}
+		walk(fd.Body)
+		urows = append(urows, u)
+	}
+
+	b.WriteString("/-- `defaultBinder.tagCache`: (tag, cache field returned); `*` is the default branch -/\n")
+	b.WriteString("def tagCacheTable : List (String × String) := [")
+	for i, r := range crows {
+		if i > 0 {
+			b.WriteString(", ")
+		}
+		fmt.Fprintf(b, "(%s, %s)", strconv.Quote(r.tag), strconv.Quote(r.field))
+	}
+	b.WriteString("]\n\n")
+	b.WriteString("/-- exported entry points of `defaultBinder`: (method, helper it returns, tag it passes) -/\n")
+	b.WriteString("def entryPoints : List (String × String × String) := [")
+	for i, r := range erows {
+		if i > 0 {
+			b.WriteString(", ")
+		}
+		fmt.Fprintf(b, "(%s, %s, %s)", strconv.Quote(r.name), strconv.Quote(r.helper), strconv.Quote(r.tag))
+	}
+	b.WriteString("]\n\n")
+	b.WriteString("/-- cache discipline of the two helpers: (function, initialiser of `cache`, receivers of `.Load`, mutating calls as\n")
+	b.WriteString("`Method:receiver`, the byTag argument of `GetReqDecoder`, the guard around `preBindBody` (empty = unconditional)) -/\n")
+	b.WriteString("def cacheUse : List (String × String × List String × List String × String × String) := [")
+	for i, u := range urows {
+		if i > 0 {
+			b.WriteString(", ")
+		}
+		fmt.Fprintf(b, "(%s, %s, %s, %s, %s, %s)", strconv.Quote(u.fn), strconv.Quote(u.cacheInit), strList(u.loads), strList(u.stores),
+			strconv.Quote(u.byTag), strconv.Quote(u.bodyGuard))
+	}
+	b.WriteString("]\n\n")
 }
